@@ -45,7 +45,7 @@ def opts(tier):
     o.nasty_names = 0.05
     o.short_last_p = 0.03
     o.equal_shapes_p = 0.15
-    return o
+    return gen.deepen(o, tier)
 
 
 def inject_forbidden(rng, spec):
